@@ -149,6 +149,41 @@ func runThorough(c *Ctx) {
 	c.Extra["witnesses_seeded_total"] = len(sws)
 	c.Extra["witnesses_seeded_fired"] = fired
 	c.Extra["witnesses_seeded_not_applicable"] = nNA
+	// ---- 1b. benign witnesses: behaviour-preserving refactorings kept under /verif/benign must stay silent
+	benign, _ := filepath.Glob(filepath.Join(verifDir, "benign", c.Prop+"-*", "patch.diff"))
+	sort.Strings(benign)
+	var bws []sw
+	for _, p := range benign {
+		if ov, err := overlayFromPatch(p); err == nil {
+			bws = append(bws, sw{filepath.Base(filepath.Dir(p)), ov})
+		}
+	}
+	bres := make([]variantResult, len(bws))
+	for i := range bws {
+		wg.Add(1)
+		go func(i int) {
+			defer wg.Done()
+			sem <- struct{}{}
+			v, k := runVariant(c.Prop, bws[i].overlay, "")
+			<-sem
+			bres[i] = variantResult{bws[i].name, v, k}
+		}(i)
+	}
+	wg.Wait()
+	silent := 0
+	for _, r := range bres {
+		switch r.verdict {
+		case "survived":
+			silent++
+			c.OK("WITNESS", "benign/"+r.name, token.NoPos, "behaviour-preserving refactoring: the rules stay silent")
+		case "nocompile":
+			c.Trivial("WITNESS", "benign/"+r.name, token.NoPos, "refactoring no longer compiles against the current source: not evaluated")
+		default:
+			c.Note("WITNESS", "benign/"+r.name, token.NoPos, "FALSE ALARM of the checker: the rules fire on a behaviour-preserving refactoring ("+r.keys+")")
+		}
+	}
+	c.Extra["witnesses_benign_total"] = len(bws)
+	c.Extra["witnesses_benign_silent"] = silent
 	// ---- 2. second configuration
 	v386, k386 := runVariant(c.Prop, nil, "386")
 	switch v386 {
